@@ -358,7 +358,25 @@ def check_tree(c):
     return out
 
 
+# equal values reached as an int on one side and as a float on the other (and near misses): the value decides, not the type
+FIXED_VALUES = {'6/3=2': True, '2=6/3': True, '1.5+1.5<>3': False, '2+1>=0.5*6': True, '4/2<=2': True, '3*1.0=3': True, '10/4=2.5': True,
+                '7/2>3': True, '7/2<4': True, '6/3<2': False, '6/3>2': False, '2*0.5=1': True, '1=2*0.5': True, '0.5+0.5<>1': False,
+                '(6/3=2)*5': 5, '10-9.5=0.5': True, '1/4=0.25': True, '3=3.0': True, '3.0=3': True, '3<>3.0': False, '2^2=4.0': True,
+                '9/3>=3': True, '9/3<=3': True, '8/2-4=0': True, '0=8/2-4': True, '-6/3=-2': True}
+
+
+def check_fixed(f):
+    import hotxlfp
+    r = hotxlfp.Parser().parse(f)
+    want = FIXED_VALUES[f]
+    if r['error'] is not None or r['result'] != want or type(r['result']) is not type(want):
+        return [(f, None, want, r)]
+    return []
+
+
 def check_case(case):
+    if 'fixed' in case:
+        return [{'case': case, 'what': w, 'class': cls, 'expected': repr(e), 'observed': repr(g)} for (w, cls, e, g) in check_fixed(case['fixed'])]
     if 'tree' in case:
         c = case['tree']
         return [{'case': case, 'what': w, 'class': cls, 'expected': repr(e), 'observed': repr(g)} for (w, cls, e, g) in check_tree(retuple(c))]
@@ -416,7 +434,7 @@ def explore(ctx):
             if ops == '+-' or n <= 66:
                 trees.append((t, render(t, 'min'), render(t, 'full'), render(t, 'rand', rng)))
     fixed = ['(' * k + '1+2' + ')' * k + '*3' for k in (1, 10, 63, 64, 65, 66, 100, 300)] + ['-' + '(' * k + '7' + ')' * k for k in (64, 65, 200)]
-    fixed += ['1+2*3', '(1+2)*3', '2*3+1', '8/4/2', '8/(4/2)', '8-4-2', '8-(4-2)', '-2*3', '-(2*3)', '2*-3', '2--3', '2/-3/4', '2/-3*4',
+    fixed += sorted(FIXED_VALUES) + ['1+2*3', '(1+2)*3', '2*3+1', '8/4/2', '8/(4/2)', '8-4-2', '8-(4-2)', '-2*3', '-(2*3)', '2*-3', '2--3', '2/-3/4', '2/-3*4',
              '1+2<3+4', '1<2=TRUE', '(1<2)', '(1<2)*5', '1&2&3', '1&2=12', '-1&2', '(1+2)&3', '2*3&4', '1+2&3', '--2', '-(-2)', '((1))',
              '(((1+2)))*(3)', '1-2+3', '1/2*4', '12/-alpha/2', '10/-A1*5']
     cases = [tol_case(f, tr[0]) for tr in trees for f in tr[1:]] + [case_of(f) for f in fixed]
@@ -425,6 +443,10 @@ def explore(ctx):
         for (c, w, cls, e, g) in vs:
             R.violate({'tree': freeze(c)}, w, cls, repr(e), repr(g))
     R.evaluations += len(trees)
+    for f in sorted(FIXED_VALUES):
+        for (w, cls, e, g) in check_fixed(f):
+            R.violate({'fixed': f}, w, cls, repr(e), repr(g))
+    R.evaluations += len(FIXED_VALUES)
     R.extra['tree_depths'] = shapes
     R.rule = ('random expression trees (depth 1..%d) over prime integer / dyadic decimal literals, variables, cells (via '
               'listener), IDENT/SUM calls, unary minus, + - * /, one comparison per parenthesis-free region and & chains; each '
